@@ -99,7 +99,7 @@ LOOP_GROUPS = {"C01": (["delta"], "C01.source_scan_sync_is_model / source_scan_a
                "C14": (["deliver", "scan"], "C14.source_remote_listing_is_the_whole_output, C09.source_deliver_local_is_model / source_deliver_pull_is_model (delivery stamps the source's mtime on a FRESH file)"),
                "C09": (["deliver", "oneway"], "C09.source_delete_list_items, C09.source_deliver_local_is_model / source_deliver_pull_is_model"),
                "C11": (["hub", "hubput", "bidir"], "C11.source_short_hash_has_no_separator / source_safe_join_is_model / source_conflict_name_is_model / source_conflict_name_under_root"),
-               "C13": (["hubsync", "hubput", "target"], "C13.source_split_target_is_model / source_push_loop_is_model / source_hub_sync_is_model / source_conflict_name_free_or_same"),
+               "C13": (["hubsync", "hubput", "target", "wire"], "C12.source_serve_is_model (the server loop: a List changes nothing and answers with the tree), C13.source_split_target_is_model / source_push_loop_is_model / source_hub_sync_is_model / source_conflict_name_free_or_same"),
                "C20": (["codec"], "C20.source_write_message_is_model / source_read_header_is_model / source_read_message_is_model"),
                "C12": (["wire", "hubput"], "C11.source_conflict_name_is_model, C12.source_serve_is_model / source_read_frame_is_loop_round / source_read_frame_reserves_at_most_max / source_read_frame_stays_in_step"),
                "C03": (["hubput", "hub"], "C03.source_handle_put_calls_are_solo_put / source_handle_delete_calls_are_solo_delete, C11.source_safe_join_is_model"),
